@@ -108,7 +108,7 @@ def gen_step_density():
 def gen_veq():
     for n in (1, 3):
         for r in vecs(RHO, n):
-            for vf, rc, a in ((102.0, 33.5, 1.867), (120.0, 28.0, 2.3)):
+            for vf, rc, a in ((102.0, 33.5, 1.867), (120.0, 28.0, 2.3), (100, 30, 2), (110, 28, 3)):
                 yield (list(r), vf, rc, a), {}, True
 
 
@@ -136,7 +136,7 @@ def gen_mainstream():
         for w in (0.0, 2.0, 50.0):
             for vc in (0.0, 3.0, 20.0, 60.0, 200.0, INF):
                 for vf_ in (0.0, 3.06, 40.8, 81.6, 112.2):
-                    for rc, a, vfree, lam in ((33.5, 1.867, 102.0, 2), (28.0, 2.3, 120.0, 3)):
+                    for rc, a, vfree, lam in ((33.5, 1.867, 102.0, 2), (28.0, 2.3, 120.0, 3), (30, 2, 100, 2)):
                         yield (d, w, vc, vf_, rc, a, vfree, lam, T_), {}, True
 
 
@@ -360,10 +360,18 @@ def harvest_spec(spec, label, st, problems, seen):
         # variables created by the NumPy engine itself: float fill, INTEGER fill (np.full((n,), 60) is int64), 0-d fill
         runs.append(("engine-created variables, var_type=30.0", P, None, np.float64(30.0)))
         runs.append(("engine-created variables, var_type=60 (int)", P, None, 60))
+    # ... and every whole-number parameter (link, ramp and model parameters) given as a Python int
+    from ..spec import integer_typed
+    sp_i, ov_i, P_i = integer_typed(spec, MODEL_PARAMS[0])
+    for vlabel, val in valgen.vectors(sp_i, 0):
+        runs.append((f"integer-typed parameters, conditions {vlabel}", P_i, val, "int-params"))
     for rlabel, P, val, fill in runs:
-        spy = SpyEngine(env.numpy_engine() if fill is None else env.numpy_engine(fill), "np", record=True)
+        intp = isinstance(fill, str)
+        spy = SpyEngine(env.numpy_engine() if (fill is None or intp) else env.numpy_engine(fill), "np", record=True)
         try:
-            if val is not None:
+            if intp:
+                np_step(sp_i, val, P, engine=spy, built=build(sp_i, override=ov_i))
+            elif val is not None:
                 np_step(spec, val, P, engine=spy)
             else:
                 build(spec).net.step(engine=spy, **P)
